@@ -51,5 +51,35 @@ SPEC = {
                    "negative control; the negative control is the model witness C31_lock_needed plus the mutation dry-runs.",
 }
 MUTATIONS = """
-(filled in after the dry-runs)
+All on a scratch copy (VERIF_REPO=/var/tmp/mC31 ./check C31 quick), /repo untouched.  "facts" = C31_facts_ok no longer
+checks; "oracle" = the direct oracle found concrete failing inputs on the real binary (replay files written).
+
+M1 buildTarget: AcquireExclusiveFileLock + deferred release removed        -> exit 1: facts + oracle (overlapping-executions-of-one-target,
+                                                                               action-ran-more-than-once (x4), concurrent-invocation-failed
+                                                                               "rule //q:t2 failed to create output plz-out/tmp/…" exit 2,
+                                                                               concurrent-differs-from-clean: //q:t2 missing) — exactly the
+                                                                               behaviour of the kernel-checked model witness C31_lock_needed
+M2 lock.go: AcquireExclusiveFileLock asks for LOCK_SH instead of LOCK_EX    -> exit 1: facts + oracle (same classes, also test-run-count-out-of-range)
+M3 buildTarget: `defer core.ReleaseFileLock(file)` -> immediate release     -> exit 1: facts + oracle (same classes)
+M8 lock.go acquireFileLock: blocking Flock after the LOCK_NB probe dropped  -> exit 1: facts + oracle (same classes)
+M5 moveOutput: `else if bytes.Equal(old,new)` -> `else if false && bytes.Equal…` -> FIRST RESULT: NOT CAUGHT (exit 0, 37/37).  The C01 extractor still saw the
+                                                                               comparison (keepOld stayed true) and no real schedule hits the
+                                                                               RemoveAll..Rename window.  GAP CLOSED by (a) a deterministic
+                                                                               end-to-end oracle — an output whose contents did not change across a
+                                                                               par step must still be the same inode (class
+                                                                               unchanged-output-was-replaced; counter same-bytes-rebuild-kept-file
+                                                                               shows it is exercised), (b) fact moveOutputKeepCond (shape of the
+                                                                               guard of moveOutput's early return), (c) a corpus step with forced
+                                                                               rebuilds of up-to-date targets.
+                                                                               SECOND RESULT: exit 1: facts (30/31) + oracle
+                                                                               "//p:t2: contents unchanged, inode 3948803 -> 3948841, executed 1 times"
+M6 harmless: local `file` -> `buildLock`, flock mode parameter `how` ->     -> exit 0, 30/30, facts regenerated (facts record roles: recv, param<k>,
+   `lockMode` everywhere in lock.go, receiver `target` -> `t` in BuildLockFile  method names — not identifiers)
+M7 please.go runPlease: AcquireSharedRepoLock -> AcquireExclusiveRepoLock   -> exit 0, 37/37: invocations serialise, the property still holds
+                                                                               (C31_serialised_if_exclusive); first attempt was a FALSE ALARM caused
+                                                                               by two non-vacuity witnesses that depended on the regenerated repo-lock
+                                                                               mode — fixed (witnesses now hold under either mode)
+Lessons folded back into the machinery: a plz binary that cannot be STARTED, or does not finish within 900 s, is an
+infrastructure error (harness exit 4/5), never an oracle verdict (another engineer's cleanup removed the mutated binary
+in the middle of the first M1 run; load average was > 150 during validation).
 """
